@@ -295,7 +295,9 @@ func c19Drive(args []string) int {
 	// empty in, empty out; unparsable in, error out
 	for fi, f := range []func(string) (string, error){
 		func(s string) (string, error) { return customfuncs.DateTimeToRFC3339(nil, s, "UTC", "Asia/Tokyo") },
-		func(s string) (string, error) { return customfuncs.DateTimeLayoutToRFC3339(nil, s, "2006-01-02", "false", "", "") },
+		func(s string) (string, error) {
+			return customfuncs.DateTimeLayoutToRFC3339(nil, s, "2006-01-02", "false", "", "")
+		},
 		func(s string) (string, error) { return customfuncs.DateTimeToEpoch(nil, s, "", "SECOND") },
 		func(s string) (string, error) { return customfuncs.EpochToDateTimeRFC3339(nil, s, "SECOND") },
 	} {
